@@ -13,6 +13,7 @@ import (
 	"flag"
 	"fmt"
 	"go/ast"
+	"go/constant"
 	"go/importer"
 	"go/parser"
 	"go/token"
@@ -444,6 +445,20 @@ func (f *fileGen) scan(n ast.Node, fd *found) {
 			switch name {
 			case "builtin.close":
 				fd.closes = append(fd.closes, n.Pos())
+			case "builtin.make":
+				// tuning knob: a buffered channel with a constant capacity of
+				// 8 or more (a performance choice) gets its capacity from the
+				// simulator, so that correctness is also explored with nearly
+				// full buffers; smaller capacities (such as the 1 of the
+				// totals channel, which the code relies on) are left alone
+				if len(n.Args) == 2 && isChan(f.typeOf(n.Args[0])) {
+					if tv, ok := f.g.info.Types[n.Args[1]]; ok && tv.Value != nil {
+						if v, exact := constantInt(tv); exact && v >= 8 {
+							a := n.Args[1]
+							f.replace(a.Pos(), a.End(), "simrt.ChanCap("+q(f.site(n.Pos(), "chancap"))+", "+flat(f.renderNode(a))+")")
+						}
+					}
+				}
 			case "time.Sleep":
 				f.replace(n.Fun.Pos(), n.Lparen+1, "simrt.Sleep("+q(f.site(n.Pos(), "sleep"))+", ")
 			case "(*sync.Mutex).Lock", "(*sync.Mutex).Unlock",
@@ -555,6 +570,14 @@ func (f *fileGen) header(anchor token.Pos, parts ...ast.Node) {
 	for _, p := range fd.points {
 		f.insert(anchor, "simrt.Point("+q(f.site(p, "point"))+"); ")
 	}
+}
+
+func constantInt(tv types.TypeAndValue) (int64, bool) {
+	if tv.Value == nil {
+		return 0, false
+	}
+	v, ok := constant.Int64Val(constant.ToInt(tv.Value))
+	return v, ok
 }
 
 func isNilNode(n ast.Node) bool {
